@@ -90,6 +90,17 @@ Theorem C11_anneal_spin : forall (quso : bool) s tab Ts num io initial seed l,
 Proof. exact anneal_spin_spec. Qed.
 Print Assumptions C11_anneal_spin.
 
+(* the same for a labelled model whose variables the user renumbered (set_mapping / set_reverse_mapping with the model's labels
+   and pairwise different integers below their number): C04_renumbered keeps the invariant *)
+Theorem C11_anneal_renumbered : forall (quso : bool) m mpx tab Ts num io initial seed l,
+  Inv m -> wf (kd m) (tm m) -> is_labelled (kd m) = true ->
+  (forall i, In i (map fst mpx) <-> In i (map fst (mp m))) -> NoDup (map fst mpx) -> snd_ok mpx ->
+  init_pm1 initial -> (0 < num)%Z ->
+  run_spin quso (SrcModel (set_mapping m mpx)) tab Ts num io initial seed = AResults l ->
+  result_ok (spin_vars quso (SrcModel (set_mapping m mpx))) (tm m) (Z.to_nat num) l.
+Proof. exact anneal_spin_renumbered. Qed.
+Print Assumptions C11_anneal_renumbered.
+
 (* anneal_qubo / anneal_pubo: the model is converted to spins (C04), annealed, and the states converted back: values in
    {0,1}, value = the boolean source model at the state (stb_env: listed variables, 0 elsewhere); any initial state *)
 Theorem C11_anneal_bool : forall (quso : bool) s tab Ts num io initial seed l, (0 < num)%Z ->
